@@ -1337,3 +1337,44 @@ def rule_name_limit_same_side(ctx):
                 ctx.violated("NAMELIMIT", key, f.where(line), "`%s` puts a length equal to H4_MAX_NC_NAME on the refused side, while the routines that create names accept it" % render(x)[:60])
     ctx.floor("NAMELIMIT", 3, n, "(comparisons of a length with H4_MAX_NC_NAME)")
     return n
+
+
+def rule_fill_mode_cleared_unconditionally(ctx):
+    """FILLMODE (C03): ncsetfill(id, NC_FILL) puts the file back into fill mode: besides syncing whatever is pending it clears
+    NC_NOFILL in `handle->flags`.  The clearing does not depend on *whether* something was pending: it is not nested under a
+    test of the dirty bits (NC_HDIRTY / NC_NDIRTY).  Folded into the sync branches, a session whose header is still clean
+    stays in no-fill mode after SDsetfillmode(SD_FILL) and the next partial write leaves the other cells unfilled."""
+    from .codec import ast_walk
+    from .facts import int_name
+    prog = ctx.prog
+    n = 0
+    for f in prog.lib_funcs():
+        ast = f.raw.get("ast")
+        if not ast or not f.rel.endswith("mfhdf/src/file.c"):
+            continue
+        found = []
+
+        def vis(nd, st):
+            if nd[0] == "s" and nd[1] is not None:
+                for x in walk(nd[1], True):
+                    # `~NC_NOFILL` (or `~(.. | NC_NOFILL)`) reaches us folded into one constant: it clears bit 0x100
+                    if x[0] == "asg" and x[1] == "&=" and mem_field(x[2]) == ("NC", "flags") and (any(int_name(y) == "NC_NOFILL" for y in walk(x[3], True)) or (is_int(x[3]) and (~int_val(x[3])) & 0x100)):
+                        conds = [a[1] for a in st if a[0] == "if" and a[1] is not None]
+                        found.append((nd, conds))
+            return True
+
+        ast_walk(ast, vis)
+        for k, (nd, conds) in enumerate(found, 1):
+            n += 1
+            key = "FILLMODE:%s#%d" % (f.name, k)
+            line = nd[-3] if isinstance(nd[-3], int) else f.line
+            dirty = any(int_name(y) in ("NC_HDIRTY", "NC_NDIRTY") for c in conds for y in walk(c, True))
+            if dirty:
+                ctx.violated("FILLMODE", key, f.where(line), "NC_NOFILL is cleared only under a test of the dirty bits: with nothing pending the file silently stays in no-fill mode")
+            else:
+                ctx.holds("FILLMODE", key, f.where(line), "NC_NOFILL is cleared whenever fill mode is requested, pending updates or not", nontrivial=True)
+    # completeness: the routine that sets the mode does clear it somewhere
+    if n == 0:
+        ctx.violated("FILLMODE", "FILLMODE:ncsetfill", "-", "no statement clears NC_NOFILL")
+    ctx.floor("FILLMODE", 1, n, "(statements that clear NC_NOFILL)")
+    return n
